@@ -80,6 +80,7 @@ type Exec struct {
 	vc        *VC
 	top       *ssa.Function
 	scope     string // package whose interface contracts apply (lemmas: the lemma's package)
+	freshScan map[*ssa.Function]map[string]bool
 	topC      *FuncContract
 	safety    bool
 	ovfCheck  bool
